@@ -239,19 +239,65 @@ def hexo(b):
 # ---------------------------------------------------------------------------
 # pie managed objects (register argument / get response)
 # ---------------------------------------------------------------------------
+def pie_wrapping_dict(w):
+    """the dictionary form kmip.pie key classes take for key wrapping data"""
+    if w is None:
+        return None
+
+    def ki(k):
+        if k is None:
+            return None
+        return {"unique_identifier": k["uid"],
+                "cryptographic_parameters": {f: (getattr(enums, cls)[k["cp"][f]] if cls else k["cp"][f])
+                                             for f, _, cls in CP_FIELDS if f in k["cp"]}}
+    d = {"wrapping_method": enums.WrappingMethod[w["method"]]}
+    if w["enc"] is not None:
+        d["encryption_key_information"] = ki(w["enc"])
+    if w["mac"] is not None:
+        d["mac_signature_key_information"] = ki(w["mac"])
+    if w["mac_signature"] is not None:
+        d["mac_signature"] = bytes.fromhex(w["mac_signature"])
+    if w["iv"] is not None:
+        d["iv_counter_nonce"] = bytes.fromhex(w["iv"])
+    if w["encoding"] is not None:
+        d["encoding_option"] = enums.EncodingOption[w["encoding"]]
+    return d
+
+
+def wrapping_core_view(kwd):
+    """canonical form of a decoded core KeyWrappingData (read field by field, not through the pie factory)"""
+    if kwd is None:
+        return None
+
+    def ki(k):
+        if k is None:
+            return None
+        cp = k.cryptographic_parameters
+        return {"uid": k.unique_identifier,
+                "cp": {f: (None if cp is None else getattr(getattr(cp, f), "name", getattr(cp, f))) for f, _, _ in CP_FIELDS}}
+    return {"method": kwd.wrapping_method.name, "enc": ki(kwd.encryption_key_information),
+            "mac": ki(kwd.mac_signature_key_information),
+            "mac_signature": None if not kwd.mac_signature else bytes(kwd.mac_signature).hex(),
+            "iv": None if not kwd.iv_counter_nonce else bytes(kwd.iv_counter_nonce).hex(),
+            "encoding": None if kwd.encoding_option is None else kwd.encoding_option.name}
+
+
 def build_pie_object(o):
     k = o["kind"]
     val = bytes.fromhex(o["value"])
     masks = [enums.CryptographicUsageMask[n] for n in o.get("masks") or []]
+    kw = {}
+    if o.get("wrapping") is not None:
+        kw["key_wrapping_data"] = pie_wrapping_dict(o["wrapping"])
     if k == "SymmetricKey":
         obj = pobjects.SymmetricKey(enums.CryptographicAlgorithm[o["alg"]], o["len"], val, masks=masks,
-                                    name=o.get("name") or "Symmetric Key")
+                                    name=o.get("name") or "Symmetric Key", **kw)
     elif k == "PublicKey":
         obj = pobjects.PublicKey(enums.CryptographicAlgorithm[o["alg"]], o["len"], val,
-                                 enums.KeyFormatType[o["format"]], masks=masks, name=o.get("name") or "Public Key")
+                                 enums.KeyFormatType[o["format"]], masks=masks, name=o.get("name") or "Public Key", **kw)
     elif k == "PrivateKey":
         obj = pobjects.PrivateKey(enums.CryptographicAlgorithm[o["alg"]], o["len"], val,
-                                  enums.KeyFormatType[o["format"]], masks=masks, name=o.get("name") or "Private Key")
+                                  enums.KeyFormatType[o["format"]], masks=masks, name=o.get("name") or "Private Key", **kw)
     elif k == "X509Certificate":
         obj = pobjects.X509Certificate(val, masks=masks, name=o.get("name") or "X.509 Certificate")
     elif k == "SecretData":
@@ -268,11 +314,66 @@ def build_pie_object(o):
     return obj
 
 
+def build_core_wrapping(w):
+    """core KeyWrappingData built by hand from the spec (NOT through kmip.pie.factory, which is under test)"""
+    def cp(d):
+        kw = {}
+        for f, _, cls in CP_FIELDS:
+            if f in d:
+                kw[f] = getattr(enums, cls)[d[f]] if cls else d[f]
+        return cattr.CryptographicParameters(**kw)
+    enc = None if w["enc"] is None else cobjects.EncryptionKeyInformation(
+        unique_identifier=w["enc"]["uid"], cryptographic_parameters=cp(w["enc"]["cp"]))
+    mac = None if w["mac"] is None else cobjects.MACSignatureKeyInformation(
+        unique_identifier=w["mac"]["uid"], cryptographic_parameters=cp(w["mac"]["cp"]))
+    return cobjects.KeyWrappingData(
+        wrapping_method=enums.WrappingMethod[w["method"]], encryption_key_information=enc,
+        mac_signature_key_information=mac,
+        mac_signature=None if w["mac_signature"] is None else bytes.fromhex(w["mac_signature"]),
+        iv_counter_nonce=None if w["iv"] is None else bytes.fromhex(w["iv"]),
+        encoding_option=None if w["encoding"] is None else enums.EncodingOption[w["encoding"]])
+
+
+def wrapping_spec_view(w):
+    """the key wrapping data dictionary the client must report for the spec `w`"""
+    if w is None:
+        return None
+
+    def ki(k):
+        if k is None:
+            return None
+        return {"uid": k["uid"], "cp": {f: k["cp"].get(f) for f, _, _ in CP_FIELDS}}
+    return {"method": w["method"], "enc": ki(w["enc"]), "mac": ki(w["mac"]), "mac_signature": w["mac_signature"],
+            "iv": w["iv"], "encoding": w["encoding"]}
+
+
+def wrapping_pie_view(d):
+    """canonical form of a pie object's key_wrapping_data dictionary"""
+    if not d:
+        return None
+
+    def name(v):
+        return getattr(v, "name", v)
+
+    def ki(k):
+        if not k:
+            return None
+        cp = k.get("cryptographic_parameters") or {}
+        return {"uid": k.get("unique_identifier"), "cp": {f: name(cp.get(f)) for f, _, _ in CP_FIELDS}}
+    ms, iv = d.get("mac_signature"), d.get("iv_counter_nonce")
+    return {"method": name(d.get("wrapping_method")), "enc": ki(d.get("encryption_key_information")),
+            "mac": ki(d.get("mac_signature_key_information")),
+            "mac_signature": None if not ms else bytes(ms).hex(), "iv": None if not iv else bytes(iv).hex(),
+            "encoding": name(d.get("encoding_option"))}
+
+
 def pie_view(obj):
     """what identifies a pie managed object for the property: class, value bytes and the cryptographic descriptors"""
     if obj is None:
         return None
     out = {"kind": type(obj).__name__, "value": bytes(obj.value).hex()}
+    if getattr(obj, "key_wrapping_data", None):
+        out["wrapping"] = wrapping_pie_view(obj.key_wrapping_data)
     for f, g in (("cryptographic_algorithm", lambda x: x.name), ("cryptographic_length", lambda x: x),
                  ("key_format_type", lambda x: x.name), ("data_type", lambda x: x.name),
                  ("opaque_type", lambda x: x.name)):
@@ -288,6 +389,8 @@ def pie_spec_view(o):
         out["cryptographic_algorithm"] = o["alg"]
         out["cryptographic_length"] = o["len"]
         out["key_format_type"] = "RAW" if o["kind"] == "SymmetricKey" else o["format"]
+        if o.get("wrapping") is not None:
+            out["wrapping"] = wrapping_spec_view(o["wrapping"])
     if o["kind"] == "X509Certificate":
         pass
     if o["kind"] == "SecretData":
@@ -303,10 +406,13 @@ def core_secret_view(s):
         return None
     if isinstance(s, (secrets.SymmetricKey, secrets.PublicKey, secrets.PrivateKey)):
         kb = s.key_block
-        return {"kind": type(s).__name__, "value": bytes(kb.key_value.key_material.value).hex(),
-                "cryptographic_algorithm": kb.cryptographic_algorithm.value.name,
-                "cryptographic_length": kb.cryptographic_length.value,
-                "key_format_type": kb.key_format_type.value.name}
+        out = {"kind": type(s).__name__, "value": bytes(kb.key_value.key_material.value).hex(),
+               "cryptographic_algorithm": kb.cryptographic_algorithm.value.name,
+               "cryptographic_length": kb.cryptographic_length.value,
+               "key_format_type": kb.key_format_type.value.name}
+        if kb.key_wrapping_data is not None:
+            out["wrapping"] = wrapping_core_view(kb.key_wrapping_data)
+        return out
     if isinstance(s, secrets.Certificate):
         return {"kind": "X509Certificate" if s.certificate_type.value == enums.CertificateType.X_509 else "Certificate",
                 "value": bytes(s.certificate_value.value).hex()}
@@ -659,8 +765,10 @@ def build_response_payload(op, s, version):
                                              cryptographic_usage_mask=s.get("mask"), lease_time=s.get("lease"))
     if op == "get":
         pie = build_pie_object(s["object"])
-        return payloads.GetResponsePayload(object_type=pie.object_type, unique_identifier=s["uid"],
-                                           secret=OF.convert(pie))
+        secret = OF.convert(pie)
+        if s["object"].get("wrapping") is not None:
+            secret.key_block.key_wrapping_data = build_core_wrapping(s["object"]["wrapping"])
+        return payloads.GetResponsePayload(object_type=pie.object_type, unique_identifier=s["uid"], secret=secret)
     if op == "get_attributes":
         return payloads.GetAttributesResponsePayload(unique_identifier=s["uid"],
                                                      attributes=[build_attribute(t) for t in s["attributes"]])
